@@ -71,6 +71,8 @@ def cells(tier):
         out.append(mk(list(tr), [ALL, [], ['sl']], T=T))
         out.append(mk(list(tr), [[], ALL, ['in', 'io']], edstart='absent', T=T))
     out.append(mk(['SD', 'none'], [ALL, ALL], started=[None, 1], T=T))
+    out.append(mk(['SD', 'TT+MT'], [ALL, []], started=[None, 1], T=T))       # the last story has its own start
+    out.append(mk(['MT', 'SD', 'SD'], [[], ['sl'], ALL], started=[None, None, 1], T=T))
     out.append(mk(['none', 'SD'], [[], []], started=[1, None], edstart='absent', T=T))
     out.append(mk(['SD', 'TT+MT'], [['sl'], ['sl', 'it']], unique=False, T=T))
     out.append(mk(['SD', 'none', 'MT'], [['sl'], [], ALL], unique=False, T=T))
